@@ -137,6 +137,28 @@ func knownFalse(st *State, t *Term) bool {
 				return true
 			}
 		}
+		// a hypothesis not(and(S)) with S among the conjuncts (or known) refutes the conjunction
+		keys := map[string]bool{}
+		for _, a := range t.Args {
+			keys[a.Key()] = true
+		}
+		for _, h := range st.hyps {
+			if h.Op != "not" || h.Args[0].Op != "and" {
+				continue
+			}
+			sub, hit := true, false
+			for _, a := range h.Args[0].Args {
+				if keys[a.Key()] {
+					hit = true
+				} else if !st.hypKeys[a.Key()] {
+					sub = false
+					break
+				}
+			}
+			if sub && hit {
+				return true
+			}
+		}
 		return false
 	case "not":
 		return knownTrue(st, t.Args[0])
@@ -227,6 +249,16 @@ func (env *SpecEnv) eval(x ast.Expr) Value {
 		env.fail("unsupported literal %s", n.Value)
 	case *ast.Ident:
 		return env.ident(n)
+	case *ast.TypeAssertExpr:
+		// x.(*T): the value inside an interface whose dynamic type is known to be *T
+		iv, ok := env.eval(n.X).(*IfaceVal)
+		if !ok || iv.dyn == nil || iv.val == nil {
+			env.fail("%s: the dynamic type is not known here", exprString(x))
+		}
+		if want := exprString(n.Type); !strings.HasSuffix(types.TypeString(iv.dyn, func(*types.Package) string { return "" }), strings.TrimPrefix(want, "*")) {
+			env.fail("%s: dynamic type is %s", exprString(x), iv.dyn)
+		}
+		return iv.val
 	case *ast.StarExpr:
 		return env.deref(env.eval(n.X), x)
 	case *ast.UnaryExpr:
@@ -795,6 +827,23 @@ func (env *SpecEnv) call(n *ast.CallExpr) Value {
 			env.fail("errIs on non-interface")
 		}
 		name := args[1].(*ast.Ident).Name
+		if iv.null.IsConst() && iv.null.Val.Sign() != 0 {
+			return tFalse
+		}
+		// a package-level error variable: compare with the value it holds
+		if env.pkg != nil {
+			if g := env.e.findGlobal(env.pkg.Path(), name); g != nil {
+				r := env.e.globalRegion(g)
+				if gv, ok := env.state().mem.cells[pathKey(r.id, nil)].(*IfaceVal); ok && gv.tag != "" {
+					if iv.tag != "" {
+						return mkAnd(mkNot(iv.null), mkBool(iv.tag == gv.tag || iv.tag == name))
+					}
+					if tt := ifaceTagTerm(iv); tt != nil {
+						return mkAnd(mkNot(iv.null), mkOr(mkEq(tt, mkApp("errtag$"+gv.tag, SInt)), mkEq(tt, mkApp("errtag$"+name, SInt))))
+					}
+				}
+			}
+		}
 		if iv.tag != "" {
 			return mkAnd(mkNot(iv.null), mkBool(iv.tag == name))
 		}
@@ -1039,7 +1088,7 @@ func init() {
 	// atom(t): the same value as t, but kept as one opaque symbol (with the defining equation as a
 	// hypothesis) so that polynomial operations on it are not expanded
 	specFuncs["atom"] = func(env *SpecEnv, n *ast.CallExpr) Value {
-		t := env.term(n.Args[0])
+		t := env.state().sub(env.term(n.Args[0]))
 		if t.Op == "var" || t.IsConst() || (t.Op == "app" && t.Name != "toring") {
 			return t
 		}
